@@ -29,9 +29,43 @@ def candidates(path, generated):
             if re.search(r'case \d+|data\[p\] [<>=!]+ \d+|<= data\[p\]|goto (st|tr)\d+', s):
                 c.append(i)
         else:
-            if re.search(r'[<>=!]=?|&&|\|\||\+\+|\b\d+\b', s) and not s.startswith('func ') and 'Errorf' not in s:
+            if MODE == 'ident':
+                if ln.startswith('\t') and not s.startswith('func ') and 'Errorf' not in s and not s.startswith('}') and not s.startswith('case ') and not s.startswith("'"):
+                    c.append(i)
+            elif re.search(r'[<>=!]=?|&&|\|\||\+\+|\b\d+\b', s) and not s.startswith('func ') and 'Errorf' not in s:
                 c.append(i)
     return lines, c
+KEYWORDS = set("break case chan const continue default defer else fallthrough for func go goto if import interface map package range return select struct switch type var nil true false len cap append make copy byte int uint uint64 int64 int32 uint32 string error bool rune float64".split())
+MODE = os.environ.get('MUTOPS', 'token')  # token | ident (swap an identifier for a nearby one, or delete a simple statement)
+def ident_mutate(lines, i):
+    full = lines[i]
+    ci = full.find('//')
+    ln, tail = (full, '') if ci < 0 else (full[:ci], full[ci:])
+    opts = []
+    near = set()
+    for j in range(max(0, i - 14), min(len(lines), i + 15)):
+        cj = lines[j].find('//')
+        code = lines[j] if cj < 0 else lines[j][:cj]
+        if '"' in code or '`' in code:
+            continue
+        for m in re.finditer(r'(?<![\w.])[A-Za-z_]\w*(?:\.[A-Za-z_]\w*)?', code):
+            w = m.group(0)
+            if w.split('.')[0] not in KEYWORDS:
+                near.add(w)
+    if '"' not in ln and '`' not in ln:
+        for m in re.finditer(r'(?<![\w.])[A-Za-z_]\w*(?:\.[A-Za-z_]\w*)?', ln):
+            w = m.group(0)
+            if w.split('.')[0] in KEYWORDS or ln[m.end():m.end() + 1] == '(':
+                continue
+            for o in near:
+                if o != w:
+                    opts.append(ln[:m.start()] + o + ln[m.end():] + tail)
+    st = ln.strip()
+    if re.match(r'^[\w.\[\]]+ (=|\+=|-=|\*=) [^{]*$', st) or re.match(r'^[\w.\[\]]+(\+\+|--)$', st):
+        indent = ln[:len(ln) - len(ln.lstrip())]
+        opts += [indent + '// deleted'] * 6
+    return random.choice(opts) if opts else None
+
 def mutate_line(full, generated):
     # only the code part of the line is mutated
     ci = full.find('//')
@@ -73,7 +107,7 @@ for files, n, g in ((hand, nh, False), (gen, ng, True)):
         if len([m for m in muts if m['gen'] == g]) >= n:
             break
         lines = open(os.path.join(REPO, f)).read().split('\n')
-        nl = mutate_line(lines[i], g)
+        nl = ident_mutate(lines, i) if (MODE == 'ident' and not g) else mutate_line(lines[i], g)
         if nl is None:
             continue
         muts.append({'file': f, 'line': i + 1, 'old': lines[i].strip(), 'new': nl.strip(), 'newline': nl, 'gen': g})
